@@ -97,6 +97,12 @@ def container_grid(offsets):
         ("arrarr", ("arr", ("arr", ("u", 2), 2), 2)),
         ("dynenum", ("dyn", ("enum", "Ge5"))),
         ("optdyn", ("opt", ("dyn", ("u", 8)))),
+        ("dynu16", ("dyn", ("u", 16))),
+        ("dynu24", ("dyn", ("u", 24))),
+        ("dynu64", ("dyn", ("u", 64))),
+        ("dyni32", ("dyn", ("i", 32))),
+        ("dyni8", ("dyn", ("i", 8))),
+        ("dynf64", ("dyn", ("f64",))),
     ]
     for tag, t in leafs:
         for o in offsets:
@@ -108,6 +114,10 @@ def container_grid(offsets):
             fields.append(("post", 2, ("u", 3)))
             decls.append(mk_struct(name, fields))
             cells.append((name, tag, o))
+            if t[0] in ("dyn", "opt", "arr"):
+                # the same container as the LAST field of the message (nothing behind it absorbs an overrun)
+                decls.append(mk_struct("GL_%s_o%d" % (tag, o), fields[:-1]))
+                cells.append(("GL_%s_o%d" % (tag, o), tag + "-last", o))
     return decls, cells
 
 
